@@ -433,6 +433,11 @@ class Registry:
             "scenic.core.lazy_eval:needsLazyEvaluation",
             "scenic.core.lazy_eval:requiredProperties",
             "scenic.core.lazy_eval:dependencies",
+            "scenic.core.utils:DefaultIdentityDict.__init__",
+            "scenic.core.utils:DefaultIdentityDict.__getitem__",
+            "scenic.core.utils:DefaultIdentityDict.__setitem__",
+            "scenic.core.utils:DefaultIdentityDict.__contains__",
+            "scenic.core.utils:DefaultIdentityDict.clear",
         }
         self.trusted = []  # (name, text) trusted facts / stubs, listed in evidence
         self._clause_cache = {}
